@@ -3,25 +3,31 @@
 import json
 TECH = "contract-based deductive verification: contracts as //@ comments on the real functions, VCs generated from go/ssa of the current working tree, every obligation discharged by z3 4.8 / z3 5.1 / cvc5 (raced)"
 claimed = {
- "C01": ("Proved for all inputs, precisions, modes, signs and aliasings: round() returns RoundSpec (the arithmetic definition of rounding, written from the property statement) of its input mantissa; Add/Sub return RoundSpec of the exact sum/difference, Mul of the exact product (via the assumed dec.mul/sqr value contract), Quo of the Euclidean quotient with sticky remainder and enough digits (ghost witnesses, DESIGN.md 10.3); Set/SetPrec/Neg/Abs likewise; under/overflow to +-0/+-Inf; index/nil/frame safety of the whole cone.",
-         "assumed: dec.mul/sqr/div value contracts (validated by bounded execution), assembly kernels (contract of the _g twin); one paper step for Quo (DESIGN.md 10.3); operand size bounds (len <= 10^7 words, exponent gap <= 10^9)"),
+ "C01": ('Proved for all inputs, precisions, modes, signs and aliasings: round() returns RoundSpec (the arithmetic definition of rounding, written from the property statement) of its input mantissa and leaves a canonical value (19-way case split, no assumed clause); Add/Sub return RoundSpec of the exact sum/difference, Mul of the exact product (via the assumed dec.mul/sqr value contract), Quo of the Euclidean quotient with sticky remainder and enough digits (ghost witnesses, DESIGN.md 10.3); Set/SetPrec/Neg/Abs likewise; under/overflow to +-0/+-Inf; index/nil/frame safety of the whole cone.',
+         'assumed: dec.mul/sqr/div value contracts (validated by bounded execution vs math/big, evidence.coverage.bounded); assembly kernels shl10VU/shr10VU (contract of the _g twin, bounded differential); one paper step for Quo (DESIGN.md 10.3); operand size bounds (len <= 10^7 words, exponent gap <= 10^9)'),
  "C02": ("Proved: acc component of RoundSpec for Set/SetPrec/setExpAndRound, under/overflow accuracy, Exact on cancellation and special values, setters SetInt64/SetUint64/NewDecimal/SetMantExp range clauses.", "same assumed clauses as C01"),
  "C03": ("Proved for every aliasing of z with x, y, u: the exact product (ghost gMp*10^gqp, tied to Mx*My by ensures[prod]) plus u is rounded once (fmaspec = RoundSpec of the exact sum/difference), the u == 0 shortcut equals Mul, special-value table, zero-sum sign rule, ErrNaN iff invalid, operands unchanged, validity. Domain: requires[prodrange] (product exponent inside the int32 range); outside it FMA is wrong - an open known finding kept visible by a bounded run.", "requires[prodrange], requires[range] size bounds; Add/umul contracts"),
- "C04": ("Proved: IEEE special-value tables of Add/Sub/Mul/Quo/FMA/Set/Neg/Abs/SetInf, `panics ErrNaN iff invalid operation`, receiver valid on the exceptional exit, and unreachability of every other panic site (index, slice, nil, division, explicit panic) in the functions under contract.", "functions not under contract (Sqrt, formatting, parsing, Float conversions, Karatsuba/division internals) are not covered by the no-other-panic half"),
+ "C04": ('Proved: IEEE special-value tables of Add/Sub/Mul/Quo/FMA/Sqrt/Set/Neg/Abs/SetInf, `panics ErrNaN iff invalid operation`, receiver valid on the exceptional exit, and unreachability of every other panic site (index, slice, nil, division, explicit panic) in the functions under contract (kernels incl. the verified assembly, dec layer, Decimal arithmetic, setters, Gob, conversions to integers).',
+         'functions not under contract (formatting, parsing, Float conversions, Karatsuba/division internals, sqrtInverse) are not covered by the no-other-panic half'),
  "C05": ("Proved: Sqrt(+-0) = +-0, Sqrt(+Inf) = +Inf, ErrNaN exactly for negative operands (incl. -Inf), precision rule, the receiver's rounding mode is preserved, the operand is not modified, the result is canonical - given the assumed frame/shape contract of sqrtInverse. The claim that the root is correctly rounded is a Newton-iteration error analysis that no contract within reach expresses: it is checked by BOUNDED execution against an exact integer oracle (evidence.coverage.bounded) and is in fact false - recorded as a known finding (off by one unit in the last place, also for perfect squares under directed modes).",
-         "sqrtInverse assumed; rounding clause bounded only (known finding one-ulp)"),
+         'sqrtInverse assumed; rounding clause bounded only (known finding one-ulp)'),
  "C06": ("Proved: functional correctness of the word kernels (_g), mulAddWW, divW, add, sub, shl; index safety and frames of those; Mul/Quo are the exact product / Euclidean quotient rounded once GIVEN the value contracts of dec.mul, dec.sqr, dec.div. Those three contracts (Karatsuba, Knuth D, recursive division) are not within reach of the VC generator: they are assumed by callers and validated by BOUNDED execution against math/big for operand lengths up to 260 words and six threshold tunings (evidence.coverage.bounded).", "dec.mul/sqr/div assumed"),
- "C07": ("Proved: every portable Go kernel (_g) satisfies its value contract (the mathematical definition) for all inputs and lengths, including the in-place/overlap layouts the library uses. The assembly bodies are not within reach (no assembly front end was built): each is compared with its _g twin by BOUNDED differential execution (lengths 0..9, edge-word combinations, all shifts, overlapping layouts, canaries; evidence.coverage.bounded), also under the pure-Go build tags.", "assembly routines assumed to satisfy the contract of their _g twin"),
- "C08": ("Proved: valid(z) (canonical form) is a postcondition of every mutator under contract, on normal and ErrNaN exits, given valid operands.", "round.ensures[shape] assumed; GobDecode, Sqrt, parsers not under contract yet"),
- "C09": ("Proved: precision rule, mode unchanged, operands unchanged (all fields and mantissa words) for every operation under contract, all aliasings.", "operations not under contract: Sqrt, SetInt, SetRat, SetFloat*, SetString/Parse, GobDecode"),
+ "C07": ("Proved: every portable Go kernel (_g) satisfies its value contract (the mathematical definition) for all inputs and lengths, including the in-place/overlap layouts the library uses. Proved as well, by the assembly front end (symbolic execution of the Plan 9 amd64 text of dec_arith_amd64.s with label invariants, same contract text as the _g twin): mul10WW, div10W, div10WW, div10VWW, mulAdd10VWW, addMul10VVW, add10VV, sub10VV, add10VW, sub10VW including the shared tail routine decCpy. Two implementations that satisfy the same contract agree word for word (the contract fixes every output word and the carry). BOUNDED only: shl10VU, shr10VU (magic-number division, table loads) and math/big's arith_amd64.s are compared with the portable code by differential execution (lengths 0..9, edge-word combinations, all shifts, overlapping layouts, canaries; evidence.coverage.bounded), also under the pure-Go build tags.",
+         'shl10VU/shr10VU assembly assumed to satisfy the contract of their _g twin (bounded differential); trusted for the verified routines: the semantics of the modelled instruction subset, ABI0 argument layout, flags after MULQ/DIVQ unspecified'),
+ "C08": ('Proved: valid(z) (canonical form: words below the base, normalized, mantissa fits the precision, trailing digits clear, zero/Inf have no mantissa) is a postcondition of every mutator under contract - round, setExpAndRound, Add, Sub, Mul, Quo, FMA, Sqrt, Set, SetPrec, Neg, Abs, SetInf, SetMantExp, SetBitsExp, SetInt64, SetUint64, NewDecimal, SetInt, GobDecode - on normal and ErrNaN exits, given valid operands.',
+         'sqrtInverse assumed (shape of its result); SetInt over assumed setNat/math/big accessors; SetRat, SetFloat*, parsers not under contract'),
+ "C09": ("Proved: precision rule (a receiver with precision 0 takes the operands' maximum, otherwise keeps its own), mode unchanged, operands unchanged (all fields and mantissa words) for every operation under contract (arithmetic, FMA, Sqrt, setters, SetInt, GobDecode), all aliasings.",
+         'operations not under contract: SetRat, SetFloat*, SetString/Parse'),
  "C10": ("Corollary: every result-determining postcondition (C01/C02/C03 clauses) is proved with pointers, slice headers, stale buffer contents and the receiver's previous value unconstrained, so results are functions of operand values, precision and mode only.", "same assumed clauses as C01"),
- "C14": ("Proved: Int64/Uint64 return the integer part gT of |x| (gT = floor(M/10^d) stated without division through the ghost remainder of dec.shr, or M*10^k) with the documented saturation at the type bounds, 0/Above for negatives (Uint64), the special values, and accuracy Exact iff MinPrec <= exp where MinPrec is 19L minus the number of trailing zero digits (word-level characterisation tz); IsInt and MinPrec likewise; toUint64 exact or overflow; SetInt64/SetUint64/NewDecimal/setBits64: sign, zero, precision, saturation when the exponent leaves the range, no wrap of the int64 exponent sum, validity. Not machine-checked: the step from `trailing zero digits >= d` to `remainder == 0` (divisibility of M by 10^d). Int/Rat/SetInt/SetRat (math/big) are not under contract.", "one paper step (tz >= d iff remainder 0); math/big based conversions not covered"),
+ "C14": ('Proved: Int64/Uint64 return the integer part gT of |x| (gT = floor(M/10^d) stated without division through the ghost remainder of dec.shr, or M*10^k) with the documented saturation at the type bounds, 0/Above for negatives (Uint64), the special values, and accuracy Exact iff MinPrec <= exp where MinPrec is 19L minus the number of trailing zero digits (word-level characterisation tz); IsInt and MinPrec likewise; toUint64 exact or overflow; SetInt64/SetUint64/NewDecimal/setBits64: sign, zero, precision, saturation when the exponent leaves the range, no wrap of the int64 exponent sum, validity; SetInt: precision rule, mode, sign, canonical result over assumed contracts of setNat and the math/big accessors. Not machine-checked: the step from `trailing zero digits >= d` to `remainder == 0` (divisibility of M by 10^d). The values produced by Int/Rat/SetInt/SetRat (base conversion through math/big) are checked by BOUNDED execution only (big-conversions, evidence.coverage.bounded).',
+         'one paper step (tz >= d iff remainder 0); math/big based conversions: values bounded only'),
  "C16": ("Proved: ucmp (digit-wise comparison with zero padding) returns the order of the exact magnitudes (loop invariants on the compared prefixes, lifted to values with V_eq_shift/V_pos/V_zero and explicit product facts); different exponents decide by normalisation; Cmp is the sign of x-y over {-Inf, finite, 0, +Inf}; ord/Sign/Signbit/IsZero/IsInf consistent. Antisymmetry and transitivity follow from `Cmp == sign(x-y)`; they are not separate obligations.", "operand size bounds only"),
  "C17": ("Proved: GobDecode is total on arbitrary bytes (every index/slice/length obligation), returns an error with the receiver's scalars untouched or leaves valid(z) (canonical form: words below the base, normalized, fits the precision, trailing digits clear); a receiver with non-zero precision keeps precision and mode; empty input gives the zero value; GobEncode never panics on a valid Decimal, does not modify it, and writes version, header byte, precision and exponent bytes as specified; lemma gob_header: unpack(pack(mode, acc, form, sign)) is the identity, so the attribute round trip follows from the two contracts. Not covered: the mantissa bytes round trip (dec.bytes/setBytes are proved memory-safe and length-correct only; bigEndianWord assumed).",
          "bigEndianWord assumed; mantissa byte values not specified; SetPrec contract for the rounding into a non-zero-precision receiver"),
  "C18": ("Proved sequentially: write frame of every function under contract is the receiver's fields and its own (or fresh) mantissa array; operands unchanged; results never alias an operand buffer. Race freedom then follows from the Go memory model (meta-argument, not machine-checked).", "sync.Pool exclusivity; Go memory model; functions not under contract"),
  "C19": ("Proved: every Context method: latched error => receiver untouched; NaN => recorded, no panic; otherwise result has the context's precision and mode; deferred handler re-panics every non-ErrNaN value; Err returns and clears.", "Decimal-layer contracts of the wrapped operations"),
- "C20": ("Proved: SetBitsExp (sign, zero, exactness, saturation, no int64 wrap), BitsExp, MantExp, SetMantExp (value preserved, zero/inf exactly when the exponent sum leaves the range).", "round clause assumed; size bounds"),
+ "C20": ('Proved: SetBitsExp (sign, zero, exactness, saturation, no int64 wrap), BitsExp, MantExp (incl. the buffer clause), SetMantExp (value preserved, zero/inf exactly when the exponent sum leaves the range).',
+         'size bounds only'),
 }
 na = {
  "C11": "text round trip needs a denotation of byte sequences through strconv/bytes/io interfaces; recursive sequence functions are outside what the solvers decide here (DESIGN.md section 6)",
@@ -29,6 +35,8 @@ na = {
  "C13": "oracle is the layout behaviour of fmt/strconv; a contract could only restate the implementation (DESIGN.md section 6)",
  "C15": "binary floating point (float64, math/big.Float) is outside the theories the solvers decide here (DESIGN.md section 6)",
 }
+import subprocess
+HOOKS = [l.split()[0] for l in subprocess.run(['git','-C','/repo','log','--format=%h %s'],capture_output=True,text=True).stdout.splitlines() if l.split(' ',1)[1].startswith('verif:')][::-1]
 checks = []
 for p in sorted(claimed):
     text, note = claimed[p]
@@ -49,7 +57,7 @@ m = {
   "guard": "verif",
   "enable": "the hooks are comment-only files with //go:build verif (contracts_verif.go, contracts_decimal_verif.go, context/contracts_verif.go); the verifier loads /repo with -tags verif",
   "baseline_off_cmd": "cd /repo && go build ./... && go test -vet=off -count=1 ./...",
-  "source_commits": [],
+  "source_commits": HOOKS,
   "add_only": True,
  },
  "engines": [{"name": "dvc", "path": "/verif/engine", "serves_properties": sorted(claimed),
